@@ -472,7 +472,7 @@ func SetConfig(id, key, val []byte) {
 	if notaryDisabled {
 		alphabet = getAlphabetNodes(ctx)
 		nodeKey = common.InnerRingInvoker(alphabet)
-		if len(key) == 0 {
+		if len(nodeKey) == 0 {
 			panic("this method must be invoked by alphabet")
 		}
 	} else {
